@@ -46,6 +46,10 @@ def _builtin_exc(name):
     return None
 
 
+# methods whose documented answer is `bytes or None` (None when nothing is left in the logical record)
+NONE_RETURNING = ('readLrBytes',)
+
+
 class ExcAnalysis:
     def __init__(self, ix):
         self.ix = ix
@@ -58,6 +62,8 @@ class ExcAnalysis:
         self._methods_by_name = None
 
     # ---- class hierarchy
+    proved_nonzero = frozenset()
+
     def ancestors(self, name, mod=None):
         """Set of class names that `name` is or derives from (repository hierarchy continued by builtins)."""
         out = {name.split('.')[-1]}
@@ -165,6 +171,10 @@ class ExcAnalysis:
                 if isinstance(h, ast.ExceptHandler):
                     enc = self._handlers_enclosing(_try_of(h), f)
                 fn = attr_chain(n.func)
+                if isinstance(n.func, ast.Attribute) and n.func.attr in NONE_RETURNING:
+                    why = self._none_deref(mod, f, cls, env, n)
+                    if why:
+                        sources.append(('TypeError', n, enc, f'{n.func.attr}() answers None at the end of the record and {why}'))
                 callees = self.resolve_call(mod, f, cls, env, n)
                 if callees:
                     for cm, cq in callees:
@@ -209,11 +219,69 @@ class ExcAnalysis:
                     continue
                 if _guarded_nonzero(n, n.right, f):
                     continue
+                if (mod, ast.unparse(n.right)) in self.proved_nonzero:
+                    continue        # an invariant established elsewhere, proved by the rule module (obligations of its own)
                 enc = self._handlers_enclosing(n, f)
                 sources.append(('ZeroDivisionError', n, enc, 'division by a non-constant'))
         self.n_asserts[key] = nas
         self._local[key] = (sources, calls)
         return self._local[key]
+
+    def _none_deref(self, mod, f, cls, env, call):
+        """how the (possibly None) result of `call` is used without a test, or '' if every use is safe: returned / stored as is,
+        tested before use, or handed to a repository function that tests its parameter first"""
+        par = getattr(call, '_parent', None)
+        if isinstance(par, (ast.Subscript, ast.Attribute)) and par.value is call:
+            return 'it is subscripted / dereferenced at once'
+        if isinstance(par, ast.Call) and any(a is call for a in par.args):
+            return self._arg_none_unsafe(mod, f, cls, env, par, [i for i, a in enumerate(par.args) if a is call][0])
+        if isinstance(par, ast.Assign) and len(par.targets) == 1 and isinstance(par.targets[0], ast.Name):
+            v = par.targets[0].id
+            loads = [x for x in walk_all(f) if isinstance(x, ast.Name) and x.id == v and isinstance(x.ctx, ast.Load)]
+            tested = False
+            for x in loads:
+                p = getattr(x, '_parent', None)
+                if isinstance(p, ast.Compare) and any(isinstance(o, (ast.Is, ast.IsNot)) for o in p.ops) and any(isinstance(c, ast.Constant) and c.value is None for c in [p.left] + p.comparators):
+                    tested = True
+                if isinstance(p, ast.UnaryOp) and isinstance(p.op, ast.Not) or isinstance(p, (ast.If, ast.While, ast.BoolOp, ast.IfExp)) and (getattr(p, 'test', None) is x or isinstance(p, ast.BoolOp)):
+                    tested = True
+            if tested:
+                return ''
+            for x in loads:
+                p = getattr(x, '_parent', None)
+                if isinstance(p, (ast.Subscript, ast.Attribute)) and p.value is x:
+                    return f'`{v}` is subscripted / dereferenced without a test'
+                if isinstance(p, ast.Call) and any(a is x for a in p.args):
+                    w = self._arg_none_unsafe(mod, f, cls, env, p, [i for i, a in enumerate(p.args) if a is x][0])
+                    if w:
+                        return w
+        return ''
+
+    def _arg_none_unsafe(self, mod, f, cls, env, outer, pos):
+        callees = [c for c in (self.resolve_call(mod, f, cls, env, outer) or []) if c[0] != '<builtin>']
+        if not callees:
+            nm = attr_chain(outer.func) or ast.unparse(outer.func)
+            if nm in ('print', 'str', 'repr', 'bool', 'id', 'type', 'isinstance') or nm.startswith(('logging.', 'logger.')):
+                return ''
+            return f'it is passed to {nm}(), which needs bytes'
+        for cm, cq in callees:
+            g, gcls = self.functions_of(cm)[cq]
+            params = [a.arg for a in g.args.args]
+            if gcls is not None and params and params[0] in ('self', 'cls') and isinstance(outer.func, ast.Attribute):
+                params = params[1:]
+            if pos >= len(params):
+                continue
+            pn = params[pos]
+            ok = False
+            for x in walk_all(g):
+                if isinstance(x, ast.Compare) and isinstance(x.left, ast.Name) and x.left.id == pn and any(isinstance(o, (ast.Is, ast.IsNot)) for o in x.ops) \
+                        and any(isinstance(c, ast.Constant) and c.value is None for c in x.comparators):
+                    ok = True
+                if isinstance(x, ast.UnaryOp) and isinstance(x.op, ast.Not) and isinstance(x.operand, ast.Name) and x.operand.id == pn:
+                    ok = True
+            if not ok:
+                return f'it is passed as `{pn}` to {cq}(), which uses it without testing for None'
+        return ''
 
     def _unpack_len_ok(self, mod, f, fmt, buf):
         """The buffer is a constant-bounds slice at least as wide as the format, of a bytes object whose length
@@ -361,6 +429,10 @@ class ExcAnalysis:
                         out = self._from_lookup(m)
                     elif fn.attr not in IGNORED_METHODS:
                         out = self._by_name(mod, fn.attr)
+                    else:
+                        # a container / stream method name that a class of the caller's own module defines too
+                        # (FileIndexer: self._idx[i].add(...) is IndexLogPass.add, not set.add): take those definitions
+                        out = [c for c in self._by_name(mod, fn.attr) if c[0] == mod]
         elif isinstance(fn, ast.Subscript):
             # dispatch table: TABLE[key](...)
             out = self._table_values(mod, cls, fn.value)
@@ -459,6 +531,11 @@ class ExcAnalysis:
                         nm = n.func.attr if isinstance(n.func, ast.Attribute) else (n.func.id if isinstance(n.func, ast.Name) else None)
                         if nm:
                             called.add(nm)
+                    elif isinstance(n, ast.Dict):
+                        # classes held in a dispatch table are constructed through it
+                        for v in n.values:
+                            if isinstance(v, (ast.Name, ast.Attribute)):
+                                called.add(v.attr if isinstance(v, ast.Attribute) else v.id)
             self._instantiated = called
         cands = []
         for mn, q in self._methods_by_name.get(meth, []):
